@@ -40,7 +40,7 @@ def check_nonneg(ctx, ver, w, op, rep, pre_hold):
     if hold is None or (hold < 0 <= pre_hold):
         ctx.violate(f"gmx.v{ver}.{op['kind']}.negative_holding", f"{op['kind']} leaves the share holding at {m.glp_amount if ver == 1 else m.amount}", rep)
     for k, a in w.broker.assets.items():
-        if a.balance < 0:
+        if not G.is_finite_num(a.balance) or a.balance < 0:
             ctx.violate(f"gmx.v{ver}.{op['kind']}.negative_wallet", f"{op['kind']} leaves wallet {k.name} = {a.balance}", rep)
 
 
@@ -135,7 +135,14 @@ def run_v2(ctx: Ctx, n: int):
             out, res, acts = w.apply(op)
             pending.append((op, out, res, acts, w.dump(), rep, req))
             ctx.impl_traces += 1
-            v1 = v2_net_value(w)
+            try:
+                v1 = v2_net_value(w)
+            except (ZeroDivisionError, ValueError, OverflowError):
+                # the account can no longer be valued (a holding on a row without supply, or a non-finite number in the state): the value
+                # clause cannot be evaluated; the holdings themselves are still judged
+                ctx.count("v2_value_undefined_after_op")
+                check_nonneg(ctx, 2, w, op, rep, F(pre["amount"]))
+                break
             allowance = DUST * touched + F(1, 10 ** 12) * abs(v0)          # float noise of the valuation itself: 1e-12 relative
             imp = "0"
             if out == "ok" and op["kind"] == "deposit":
